@@ -21,7 +21,27 @@ def seg_key(s):
     return (s.baseline_cpu_seconds, law, s.storage_read_gb)
 
 
-class EnumRng:
+class _Fallback:
+    """draw kinds the stand-in does not enumerate are answered by a real, seeded numpy generator and counted:
+    that is reduced coverage, never a harness failure and never by itself a violation"""
+    unknown_calls = 0
+
+    def __getattr__(self, name):
+        if name.startswith("__"):
+            raise AttributeError(name)
+        import numpy as _np
+        real = self.__dict__.setdefault("_real", _np.random.default_rng(12345))
+        attr = getattr(real, name)
+        if callable(attr):
+            def call(*a, **k):
+                _Fallback.unknown_calls += 1
+                self.__dict__["foreign"] = self.__dict__.get("foreign", 0) + 1
+                return attr(*a, **k)
+            return call
+        return attr
+
+
+class EnumRng(_Fallback):
     def __init__(self, ch, log, zs=ZS):
         self.ch = ch
         self.log = log
@@ -154,7 +174,7 @@ def quantiles(n=256):
     return [nd.inv_cdf((k + 0.5) / n) for k in range(n)]
 
 
-class OneDrawRng:
+class OneDrawRng(_Fallback):
     """every draw answers its default except draw number `target` of kind 'normal' with the given
     (loc, scale) signature, which answers the given z"""
 
@@ -196,10 +216,14 @@ def expectations(cfg):
     for z in qs:
         pr = params(num_pipelines=1, num_operators=nops, ticks_per_second=tps, interactive_prob=0, query_prob=0, batch_prob=1)
         g = WorkloadGenerator(**pr)
-        g.rng = OneDrawRng(lambda loc, scale, k: k == 0, z)
+        g.rng = OneDrawRng(lambda loc, scale, k: abs(loc - nops) < 1e-12 and scale > 0, z)
         pl = g.generate_pipelines()[0]
-        counts.append(len(pl.values.node_lookup))
         n += 1
+        if g.rng.hit != 1 or g.rng.__dict__.get("foreign"):
+            continue    # the operator count is not drawn as one normal(num_operators, .) sample: not enumerable this way
+        counts.append(len(pl.values.node_lookup))
+    if len(counts) < len(qs):
+        return dict(n=n, viol=[], states={(json.dumps(cfg), "expect-skipped")}, skipped="operator-count draw not recognised")
     mean = sum(counts) / len(counts)
     if abs(mean - nops) > max(0.75, nops / 10):   # truncation towards zero costs about half an operator
         viol.append(("operator-count-mean", f"E[operators]={mean:.3f} for num_operators={nops}", dict(cfg=cfg)))
@@ -213,13 +237,17 @@ def expectations(cfg):
         for z in qs:
             pr = params(num_pipelines=1, num_operators=1, ticks_per_second=tps, waiting_seconds_mean=wait_ticks / tps, interactive_prob=0, query_prob=1, batch_prob=0)
             g = WorkloadGenerator(**pr)
-            g.rng = OneDrawRng(lambda loc, scale, k: k == 0, z)
+            wmean = int(wait_ticks)
+            g.rng = OneDrawRng(lambda loc, scale, k: abs(loc - wmean) < 1e-9 and scale > 0, z)
             t, ev = 0, []
             while len(ev) < 2 and t < 10 * wait_ticks + 10:
                 if g.run_one_tick():
                     ev.append(t)
                 t += 1
             n += 1
+            if g.rng.hit < 1 or g.rng.__dict__.get("foreign"):
+                gaps = None
+                break
             if len(ev) < 2:
                 viol.append(("gap-missing", f"no second event within {t} ticks", dict(cfg=cfg, wait=wait_ticks)))
                 continue
@@ -238,11 +266,20 @@ def expectations(cfg):
             pr = params(num_pipelines=1, num_operators=3, ticks_per_second=tps, cpu_io_ratio=ratio, interactive_prob=0, query_prob=0, batch_prob=1)
             g = WorkloadGenerator(**pr)
             # draw 0 = operator count (default -> 3 operators); draws 1.. = segments of later operators
-            g.rng = OneDrawRng(lambda loc, scale, k: k == 1, z)
+            state = {"seen": 0}
+
+            def seg_draw(loc, scale, k, ratio=ratio, state=state):
+                # the first normal draw that is not the operator-count draw (num_operators=3, scale 0.75): the second
+                # operator's prototype - whatever centre the implementation gives it (that is what is being tested)
+                if abs(loc - 3) < 1e-12 and abs(scale - 0.75) < 1e-12:
+                    return False
+                state["seen"] += 1
+                return state["seen"] == 1
+            g.rng = OneDrawRng(seg_draw, z)
             pl = g.generate_pipelines()[0]
             ops = list(pl.values.node_lookup.values())
             n += 1
-            if len(ops) < 2:
+            if len(ops) < 2 or g.rng.hit != 1 or g.rng.__dict__.get("foreign"):
                 continue
             k = seg_key(ops[1].get_segments()[0])
             ranks.append(PROTOS.index(k) if k in PROTOS else -1)
@@ -349,7 +386,9 @@ def main(tier, seed):
         rep.add_states(r["states"])
         for kind, d, what in r["viol"]:
             rep.add_violations([Violation("expectations", kind, d, what, [], family="C15e")])
-    rep.part("expectations", configurations=len(ecfgs), quantiles=256)
+    rep.part("expectations", configurations=len(ecfgs), quantiles=256, configurations_skipped_draw_not_recognised=sum(1 for r in res3 if r.get("skipped")))
+    if any(r.get("skipped") for r in res3):
+        rep.harness_notes.append("some expectation configurations could not be enumerated: the generator does not draw the operator count as one normal(num_operators, .) sample (reduced coverage, not a violation)")
     # (iv) real generator
     K = 64 if q else 2000
     res4 = pmap(seeds_case, [(seed + lo, seed + min(lo + 16, K)) for lo in range(0, K, 16)], chunks=1)
